@@ -11,9 +11,14 @@ import par
 REC = re.compile(r"^@@REDO:([^:@]*):(-?\d+):([0-9.]+)@@ (.*)$")
 
 
-def mk_script(name, deps, lines, partial=False, recordlike=None):
+def mk_script(name, deps, lines, partial=False, recordlike=None, frag=None):
     L = []
     half = len(lines) // 2
+    if frag:
+        # one line that reaches the log in several pieces, with pauses long enough for the follower to read each piece by itself
+        for piece in frag[:-1]:
+            L.append("printf '%s' >&2; sleep 0.35" % piece)
+        L.append("echo '%s' >&2" % frag[-1])
     for l in lines[:half]:
         L.append("echo '%s' >&2" % l)
     if deps:
@@ -60,7 +65,7 @@ def attribute(text, root_names):
     return out, seq
 
 
-def one_project(bindir, r, jobs, with_recordlike):
+def one_project(bindir, r, jobs, with_recordlike, with_fragments=False):
     n = r.randint(3, 7)
     names = ["n%d" % i for i in range(n)]
     deps = {}
@@ -82,6 +87,12 @@ def one_project(bindir, r, jobs, with_recordlike):
         if not any(nm in deps[x] for x in names):
             deps[root].append(nm)
     partial = {nm: (r.random() < 0.15) for nm in names}
+    frags = {}
+    if with_fragments:
+        nm = r.choice(names)
+        k = r.randint(3, 5)
+        frags[nm] = ["L-%s-frag%d." % (nm, q) for q in range(k)]
+        lines[nm] = ["".join(frags[nm])] + lines[nm]
     ghost = None
     if with_recordlike:
         victim = r.choice(names)
@@ -90,7 +101,8 @@ def one_project(bindir, r, jobs, with_recordlike):
     try:
         for nm in names:
             with open(os.path.join(pp.root, nm + ".do"), "w") as f:
-                f.write(mk_script(nm, deps[nm], lines[nm], partial[nm], ghost[1] if ghost and ghost[0] == nm else None))
+                f.write(mk_script(nm, deps[nm], lines[nm][1:] if nm in frags else lines[nm], partial[nm],
+                                  ghost[1] if ghost and ghost[0] == nm else None, frags.get(nm)))
         env = dict(pp.pr.env)
         for k in ("REDO_LOG", "REDO_PRETTY", "REDO_COLOR"):
             env.pop(k, None)
@@ -130,9 +142,12 @@ def run(res, r, tier):
     kn, _ = common.known_findings()
     has_f11 = any(k["property"] == "C18" and k["cls"] == "line_parses_as_record" for k in kn)
     samples = []
+    nfrag = 0
     for i in range(n):
         ghost = (i % 5 == 4)
-        x = one_project(bindir, r, r.choice([1, 2, 3, 4]), ghost)
+        fragd = (i % 4 == 1)
+        x = one_project(bindir, r, r.choice([1, 2, 3, 4]), ghost, fragd)
+        nfrag += fragd
         ev += 1
         bad = check(x)
         if x["rc"] != 0:
@@ -148,4 +163,4 @@ def run(res, r, tier):
             else:
                 for b in bad[:2]:
                     viol.append({"oracle": "stderr lines once/in order/under the right target", "jobs": x["jobs"], "deps": x["deps"], "detail": b})
-    return {"evaluations": ev, "violations": viol, "known_hits": known, "samples": samples}
+    return {"evaluations": ev, "violations": viol, "known_hits": known, "samples": samples, "projects_with_a_line_in_3_to_5_fragments": nfrag}
